@@ -253,3 +253,22 @@ def far_positions():
                 text = "\n" * (n - 1) + 'info!("m");\nwarn!("next line");\n'
             for style in (False, True):
                 yield gen.cfg_index(0, style), text, ("far-position", kind, n)
+
+
+def gap_sweep():
+    """Two or three unreferenced statements in one file separated by gaps around buffer-sized boundaries (a chunk between two insertion
+    points that is exactly / just under / just over 4 KiB, 8 KiB, 64 KiB, 128 KiB, 1 MiB)."""
+    line = "// " + "g" * 60 + "\n"
+    for gap in (4096, 8192, 65536, 131072, 1048576):
+        for d in (-1, 0, 1):
+            g = gap + d
+            filler = line * (g // len(line))
+            filler += "/" * 0
+            pad = g - len(filler)
+            filler += "//" + "p" * max(0, pad - 3) + "\n" if pad >= 3 else ""
+            for three in (False, True):
+                text = 'fn a() { info!("first"); }\n' + filler + 'fn b() { warn!(k = 1; "second"); }\n'
+                if three:
+                    text += filler[: len(filler) // 2] + 'fn c() { error!("third"); }\n'
+                for style in (False, True):
+                    yield gen.cfg_index(0, style), text, ("gap", gap, d, three)
